@@ -232,6 +232,7 @@ def shards(tier, seed):
     out.append(("subidentifiers", dict(kind="subid")))
     out.append(("concurrent", dict(kind="concurrent", runs=150 if q else 2000)))
     out.append(("roundtrip_oid", dict(kind="rt_oid", count=400 if q else 6000)))
+    out.append(("oid_reject_giant", dict(kind="oid_reject_giant")))
     out.append(("roundtrip_bodies", dict(kind="rt_bodies", big=not q)))
     for i in range(2 if q else 8):
         out.append(("mutants_%d" % i, dict(kind="mutants", count=3000 if q else 40000)))
@@ -441,6 +442,34 @@ def run(ctx, name, kind, **kw):
                 ctx.violation("length_roundtrip", "read_length(encode_length(%d)) raised %s" % (n, type(e).__name__), dict(n=n))
                 continue
             ctx.check(got == (n, len(enc)), "length_roundtrip", "round trip of length %d gives %r" % (n, got), dict(n=n))
+    elif kind == "oid_reject_giant":
+        # malformed OIDs whose defect sits behind thousands of continuation octets: refused with UnexpectedDER, nothing else
+        for ncont in (1, 10, 300, 2041, 2042, 2043, 2100, 5000, 70000):
+            for pre in (b"\x2a", b"\x2b\x81\x04", b"\x88\x37", b""):
+                for fill in (b"\xff", b"\x81", b"\x80"):
+                    body = pre + fill * ncont               # last octet has the continuation bit: unterminated sub-identifier
+                    for data, nm in ((R.enc_tlv(0x06, body), "unterminated"), (R.enc_tlv(0x06, body + b"\x01") [:-1], "cut"), (R.enc_tlv(0x06, pre + b"\x80" + fill * ncont + b"\x01"), "padded_then_giant")):
+                        ctx.case("reject.object_giant", key="%s|%d" % (nm, ncont))
+                        for fn_name, fn in (("remove_object", der.remove_object),):
+                            try:
+                                fn(data)
+                                outcome = "accepted"
+                            except der.UnexpectedDER:
+                                outcome = "refused"
+                            except Exception as e:
+                                outcome = "raised %s: %s" % (type(e).__name__, str(e)[:80])
+                            ctx.check(outcome == "refused", "object_raises_other" if outcome.startswith("raised") else "object_accepts_noncanonical:giant_unterminated",
+                                      "%s on an OID with %d continuation octets (%s): %s" % (fn_name, ncont, nm, outcome), dict(ncont=ncont, kind=nm))
+                if ncont >= 2000:
+                    # read_number directly
+                    try:
+                        der.read_number(b"\xff" * ncont)
+                        outcome = "accepted"
+                    except der.UnexpectedDER:
+                        outcome = "refused"
+                    except Exception as e:
+                        outcome = "raised %s: %s" % (type(e).__name__, str(e)[:80])
+                    ctx.check(outcome == "refused", "object_raises_other", "read_number on %d continuation octets without an end: %s" % (ncont, outcome), dict(ncont=ncont))
     elif kind == "rt_oid":
         seconds = [0, 1, 39, 40, 47, 48, 127, 128, 2 ** 14, 2 ** 35]
         arcvals = [0, 1, 127, 128, 2 ** 14 - 1, 2 ** 14, 2 ** 21 - 1, 2 ** 21, 2 ** 64, 2 ** 70 + 3]
@@ -456,9 +485,24 @@ def run(ctx, name, kind, **kw):
             first = rng.randrange(3)
             second = rng.choice(seconds) if first == 2 else rng.randrange(40)
             cases.append((first, second) + tuple(rng.choice(arcvals + [rng.getrandbits(rng.randrange(1, 40))]) for _ in range(rng.randrange(0, 7))))
+        # arcs beyond every machine / floating-point size, in every position (the second arc shares its sub-identifier with the first)
+        for big in (2 ** 64, 2 ** 128 + 1, 2 ** 520, 2 ** 1023, 2 ** 1024, 2 ** 1030 + 7, 40 * 2 ** 1024 - 80, 40 * 2 ** 1024, 2 ** 2100, 2 ** 16000 + 1):
+            cases += [(2, big), (2, big, 5), (1, 3, big), (1, 3, big, 1), (2, 5, 7, big), (0, 9, big, big)]
         for oid in cases:
             enc = der.encode_oid(*oid)
-            ctx.case("roundtrip.oid", key="%d|%d|%d" % (oid[0], min(oid[1], 50), len(oid)))
+            ctx.case("roundtrip.oid", key="%d|%d|%d" % (oid[0], min(oid[1], 50) if oid[1] < 2 ** 64 else oid[1].bit_length(), len(oid)))
+            if max(oid) >= 2 ** 70:
+                # giant arcs: nothing below may format them in decimal (int -> str digit limit)
+                ok_enc = enc == R.enc_oid(oid)
+                try:
+                    got = der.remove_object(enc + b"\x00\x01")
+                    ok_dec = tuple(got[0]) == tuple(oid) and bytes(got[1]) == b"\x00\x01"
+                    why = "decoded value differs"
+                except Exception as e:
+                    ok_dec, why = False, "raised %s: %s" % (type(e).__name__, str(e)[:80])
+                ctx.check(ok_enc and ok_dec, "oid_roundtrip", "OID with an arc of %d bits in position %d (first arc %d): %s" % (max(oid).bit_length(), oid.index(max(oid)), oid[0],
+                                                                                                                   "encoder differs from reference" if not ok_enc else why), dict(bits=max(oid).bit_length(), first=oid[0]))
+                continue
             ctx.check(enc == R.enc_oid(oid), "oid_encoder_noncanonical", "encode_oid%r = %s, reference %s" % (oid, enc.hex(), R.enc_oid(oid).hex()), dict(oid=oid))
             try:
                 got = der.remove_object(enc + b"\x00\x01")
